@@ -128,6 +128,9 @@ def items(tier: str, seed: int) -> list[dict]:
     b_items = [("unit3", ["coverage"]), ("unit3", ["fuzzing"]), ("rich", ["coverage"]), ("unit2", ["examples", "fuzzing"])]
     if tier == "thorough":
         b_items += [("unit3", ["examples", "coverage", "fuzzing"]), ("rich", ["fuzzing"])]
+    # `--generation-deterministic` without a seed: Hypothesis derives the PRNG seed from the per-operation test itself
+    out.extend(ee.sharded({"part": "b", "doc": "unit3", "phases": ["fuzzing"], "workers": 2, "p": b["preemptions"], "e": 0, "max_examples": 2,
+                           "behaviour": "ok", "fault": None, "max_failures": None, "ctrl_c": False, "seed": None}, 2))
     for doc, phases in b_items:
         out.extend(ee.sharded({"part": "b", "doc": doc, "phases": phases, "workers": 2, "p": b["preemptions"], "e": 0, "max_examples": 2,
                                "behaviour": "ok", "fault": None, "max_failures": None, "ctrl_c": False}, 8 if tier == "quick" else 16))
